@@ -717,7 +717,7 @@ def _finish(res, log, m):
     sig = [s for s in res["sig"]]
     res["signature"] = res["world"]["kind"] + "|" + ">".join(sig)
     kinds = [s.split(":")[0] for s in sig]
-    res["opseq3"] = [res["world"]["kind"] + "|" + ">".join(kinds[:n]) for n in range(1, min(3, len(kinds)) + 1)]
+    res["opseq3"] = [res["world"]["kind"] + "|" + ">".join(kinds[:n]) for n in range(1, min(4, len(kinds)) + 1)]
     ok_changes = sum(1 for s in sig if s.split(":")[1] == "ok" and s.split(":")[0] in ("decimate", "detrend", "filter", "rollback"))
     res["nontrivial"] = ok_changes >= 2 or any(s.endswith(":fault") for s in sig)
     res["steps"] = len(sig)
@@ -816,9 +816,12 @@ def shrink_candidates(case):
 
 def extra_coverage(agg):
     seqs = agg.sets.get("opseq3", ())
+    le3 = [q for q in seqs if q.count(">") <= 2]
     return {
-        "op_kind_sequences_len_le3_reached": len(seqs),
+        "op_kind_sequences_len_le3_reached": len(le3),
         "op_kind_sequences_len_le3_possible": 2 * (5 + 25 + 125),
+        "op_kind_sequences_len_le4_reached": len(seqs),
+        "op_kind_sequences_len_le4_possible": 2 * (5 + 25 + 125 + 625),
         "note_on_enumeration": "the property's quantifier mentions exhaustive enumeration up to length 4; enumeration is model "
                                "checking, not this technique - sequences are sampled and the reach over operation-kind sequences "
                                "of length <= 3 x {single, preger} is measured instead",
